@@ -93,6 +93,17 @@ static void run_case(cs::Src& s, cs::Ctx& ctx) {
     Doc d;
     o.top_container = s.coin();
     d.v = gen::gen_value(s, o);
+    if (msgpack && s.chance(1, 3)) {  // bin / ext items, also with empty payloads and as top-level objects
+      std::string data;
+      static const size_t L[] = {0, 0, 1, 2, 4, 5, 16, 40, 300};
+      size_t n = L[s.below(9)];
+      for (size_t i = 0; i < n; i++) data += (char)s.below(256);
+      int width = (int)s.below(3);  // 0 minimal, 1, 2
+      if (width == 1 && n > 255) width = 2;
+      Val item = s.coin() ? Val::raw(mref::bin_bytes(data, width)) : Val::raw(mref::ext_bytes((int8_t)s.below(256), data, width));
+      if (d.v.k == Val::Arr && s.coin()) d.v.a.push_back(item);
+      else d.v = item;
+    }
     d.number = d.v.k == Val::Int || d.v.k == Val::Flt;
     if (msgpack) {
       SrcWidths w;
@@ -109,7 +120,7 @@ static void run_case(cs::Src& s, cs::Ctx& ctx) {
       if (prev_number && b == 0) b = 1 + (size_t)s.below(5);
       stream += B[b];
       gen::Spell sp;
-      sp.strict = true;
+      sp.strict = s.coin();  // dialect spellings too: single quotes, unquoted keys
       sp.ws = s.coin();
       std::string t;
       if (d.v.k == Val::Flt) {
